@@ -61,10 +61,13 @@ def h_reconstruction(eng):
                 n1, n2 = w.numel[(key, k)]
                 offset = sum((w.numel[(key, q)][0] * w.numel[(key, q)][1] for q in range(k)), z3.IntVal(0))
                 code = w.dep_code
+                del ROWMAJOR[:]
                 sel = selection_of(val)
                 if sel is None:
                     eng.prove("reconstruct.row.not_mx_attribute_kept", z3.And(code == 0, z3.BoolVal(val is dget(a))))
                     continue
+                eng.prove("reconstruct.row.matrix_attribute_elements_return_to_their_positions",
+                          z3.And([z3.Or(ops.to_arith(sh[0]) == 1, ops.to_arith(sh[1]) == 1) if len(sh) == 2 else z3.BoolVal(True) for sh in ROWMAJOR] + [z3.BoolVal(True)]))
                 mat, rows, col = sel
                 want_call = 1 if True else 2
                 eng.prove("reconstruct.row.source_matrix", z3.BoolVal(
@@ -105,8 +108,15 @@ def selection_of(val):
         if val.origin[0] in ("mx", "reshape"):
             val = val.origin[1]
             continue
+        if val.origin[0] == "reshape-rowmajor":
+            ROWMAJOR.append(val.origin[2])
+            val = val.origin[1]
+            continue
         break
     return None
+
+
+ROWMAJOR = []        # shapes that were restored with a row-major reshape on the way (filled by selection_of, read by its caller)
 
 
 def h_variable_roundtrip(eng):
@@ -248,10 +258,15 @@ def h_save_load_roundtrip(eng):
                 if not isinstance(orig, A.AttrMX):
                     eng.prove("roundtrip2.plain_attribute_restored", z3.BoolVal(val is orig), attribute=a)
                     continue
+                del ROWMAJOR[:]
                 sel = selection_of(val)
                 if sel is None:
                     eng.prove("roundtrip2.mx_attribute_comes_from_the_metadata_function", False, got=repr(val))
                     continue
+                # (P) the elements of a matrix attribute come back at their own (row, column): the metadata column lists them column
+                # by column, so a row-major reshape is right only for a single row or a single column
+                eng.prove("roundtrip2.matrix_attribute_elements_return_to_their_positions",
+                          z3.And([z3.Or(ops.to_arith(sh[0]) == 1, ops.to_arith(sh[1]) == 1) if len(sh) == 2 else z3.BoolVal(True) for sh in ROWMAJOR] + [z3.BoolVal(True)]))
                 mat, rows, col = sel
                 eng.prove("roundtrip2.mx_attribute_comes_from_the_metadata_function", z3.BoolVal(isinstance(mat, A.Matrix) and mat.label.endswith("." + cat)))
                 want_call = "#1." if kind == "dependent" else "#2."
